@@ -539,6 +539,7 @@ def _val_mul(a, b):
             key = ('usq', m.get_id())
             if key not in p.ghost:
                 p.ghost[key] = m
+                p.exact.append(m == a * a)
                 p.axiom(m >= 0)
                 p.axiom((m == 0) == (a == 0))
                 p.axiom(z3.Implies(z3.And(a >= -1, a <= 1), m <= 1))
@@ -551,6 +552,7 @@ def _val_mul(a, b):
         key = ('umul', m.get_id())
         if key not in p.ghost:
             p.ghost[key] = m
+            p.exact.append(m == a * b)
             p.axiom(z3.Or(a == 0, b == 0) == (m == 0))
             p.axiom(z3.Or(z3.And(a > 0, b > 0), z3.And(a < 0, b < 0)) == (m > 0))
         return m
@@ -577,6 +579,7 @@ def _val_div(a, b):
         key = ('udiv', q.get_id())
         if key not in p.ghost:
             p.ghost[key] = q
+            p.exact.append(z3.Implies(b != 0, q * b == az))
             nz = b != 0
             p.axiom(z3.Implies(nz, (q == 0) == (az == 0)))
             p.axiom(z3.Implies(nz, (q > 0) == z3.Or(z3.And(az > 0, b > 0), z3.And(az < 0, b < 0))))
@@ -974,6 +977,8 @@ def f_sqrt(a, np_sem=False):
             p.axiom(z3.And(y > _zr(lo), y < _zr(hi)))
             if not p.cfg.uflin:
                 p.axiom(y * y == _zr(Fraction(v)))
+            else:
+                p.exact.append(y * y == _zr(Fraction(v)))
         return SFloat(y, False, 0, np_sem, Fraction(v))
     # symbolic
     vz = _zr(v)
@@ -992,6 +997,7 @@ def f_sqrt(a, np_sem=False):
         p.ghost[key] = (y, vz)
         p.axiom(y >= 0)
         if p.cfg.uflin:
+            p.exact.append(z3.Implies(vz >= 0, y * y == vz))
             p.axiom(z3.Implies(vz >= 0, (y == 0) == (vz == 0)))
             p.axiom(z3.Implies(vz >= 1, z3.And(y >= 1, y <= vz)))
             p.axiom(z3.Implies(z3.And(vz >= 0, vz <= 1), z3.And(y <= 1, y >= vz)))
